@@ -57,6 +57,11 @@ def run(p: Program, rep: Report, tier: str) -> None:
         rep.cfg_paths += len(paths)
         n_read = n_replay = n_raise = 0
         for pa in paths:
+            # infeasible: the path assumes `X is None` and also the outcome of `X.done()` (a method call on None raises) - arises when
+            # a helper returns `future if future.done() else None` and the caller tests the result against None
+            nones = [f[2] for f, t in pa.facts if t and f[0] == "cmp" and f[1] == "Is" and f[3] == NONE] + [f[2] for f, t in pa.facts if (not t) and f[0] == "cmp" and f[1] == "IsNot" and f[3] == NONE]
+            if any(f[0] == "call" and f[1][0] == "attr" and f[1][2] == "done" and f[1][1] in nones for f, _t in pa.facts):
+                continue
             reads = _reads(pa, side, col)
             flag_false = (CONSUMED, False) in pa.facts
             flag_true = (CONSUMED, True) in pa.facts
